@@ -90,24 +90,24 @@ Proof. exact release_preserves_excl. Qed.
 Print Assumptions C13_exclusion_preserved_by_release.
 
 (* ---- "no capability is switched off while something that needs it remains" ----
-   FULL STATEMENT (false of the code, see the counterexample below):
-     forall T n o g s s', requires_inv T s -> disable T n o g s = Some (true, s') -> requires_inv T s'
-   where requires_inv: every enabled f has every g in requires_self(f) enabled.
-   What holds: disable refuses a feature with more than one reference, and changes nothing then. *)
-Theorem C13_no_switch_off_while_needed_partial : forall (T : tables) n o f s,
-  (1 < fs_rc (get_fs s o f))%Z -> is_enabled s o f = true -> disable T (S n) o f s = Some (false, s).
+   (The code used to refuse only ref_count > 1; repaired by the fix "a feature required by exactly one other enabled
+   feature could be disabled"; the model follows the repair.)
+   disable refuses a feature with at least one reference, and changes nothing then. *)
+Theorem C13_disable_refuses_referenced_feature : forall (T : tables) n o f s,
+  (0 < fs_rc (get_fs s o f))%Z -> is_enabled s o f = true -> disable T (S n) o f s = Some (false, s).
 Proof. exact disable_refuses. Qed.
-Print Assumptions C13_no_switch_off_while_needed_partial.
+Print Assumptions C13_disable_refuses_referenced_feature.
 
-(* Counterexample on the real tables: a scalar variable with output_total_force (20) on, which requires
-   total_force (7) and holds the only reference to it (ref_count 1): disable(7) succeeds. *)
-Theorem C13_no_switch_off_while_needed_refuted : exists s s',
+(* regression example on the real tables (the former counterexample): a scalar variable with output_total_force (20)
+   on, which requires total_force (7) and holds the only reference to it (ref_count 1): disable(7) is refused;
+   disabling 20 releases 7. *)
+Example C13_example_single_dependent : exists s,
   enable gen_tables 20 0 20 false true false w3_s0 = Some (true, s) /\
   In 7 (f_self (feat gen_tables (cls_of s 0) 20)) /\ is_enabled s 0 20 = true /\ is_enabled s 0 7 = true /\
-  disable gen_tables 20 0 7 s = Some (true, s') /\
-  is_enabled s' 0 20 = true /\ is_enabled s' 0 7 = false.
-Proof. exact w3_witness. Qed.
-Print Assumptions C13_no_switch_off_while_needed_refuted.
+  fs_rc (get_fs s 0 7) = 1%Z /\
+  disable gen_tables 20 0 7 s = Some (false, s) /\
+  (exists s', disable gen_tables 20 0 20 s = Some (true, s') /\ is_enabled s' 0 20 = false /\ is_enabled s' 0 7 = false).
+Proof. exact w3_regression. Qed.
 
 (* ---- a failed enable ----
    FULL STATEMENT (false of the code): enable T n o f false top err s = Some (false, s') -> s' = s.
@@ -184,11 +184,11 @@ Example C13_example_release : exists s s',
   release_op (OpDisable 0 20) = true /\ run_op gen_tables 20 (OpDisable 0 20) s = Some (true, s') /\
   is_enabled s 0 20 = true /\ is_enabled s' 0 20 = false /\ is_enabled s' 0 7 = false.
 Proof.
-  destruct w3_witness as (s & _ & E & _). exists s. eexists.
-  vm_compute in E. inversion E as [Hs]. repeat (split; [vm_compute; reflexivity|]). vm_compute; reflexivity.
+  destruct w3_regression as (s & _ & _ & E20 & _ & _ & _ & (s' & D & A & B)). exists s, s'.
+  repeat split; try assumption.
 Qed.
 
-Example C13_example_guard : exists s, (1 < fs_rc (get_fs s 0 2))%Z /\ is_enabled s 0 2 = true.
+Example C13_example_guard : exists s, (0 < fs_rc (get_fs s 0 2))%Z /\ is_enabled s 0 2 = true.
 Proof.
   exists [mkObj 1 (map (fun i => mkFstate true (Nat.eqb i 2) 2%Z []) (seq 0 38)) [] []].
   split; vm_compute; reflexivity.
